@@ -96,8 +96,11 @@ def _ensure(scratch=None):
     from breezy.transport import get_transport, get_transport_from_url
     from dromedary import chroot
     if scratch is None:
+        # impl called outside setup() (shrink / --replay): own scratch directory, removed at exit
+        import atexit
         scratch = tempfile.mkdtemp(prefix="verif-C32-own-")
         _state["own"] = scratch
+        atexit.register(teardown)
     os.environ.setdefault("BRZ_EMAIL", "Verif <verif@example.com>")
     _state["old_timeout"] = lockdir._DEFAULT_TIMEOUT_SECONDS
     lockdir._DEFAULT_TIMEOUT_SECONDS = 0
